@@ -422,16 +422,22 @@ func runSearch(a map[string]string) {
 		fmt.Println("FOUND " + string(b))
 		os.Stdout.Sync()
 	}
-	// write faults: every position of the failing disk write, small scope
-	nf := 40
+	// write faults: for a few small tries, EVERY position of the failing disk write (each Put of the
+	// batch and the final Write), found by a dry run that counts the writes
+	nf := 0
+	nseeds := 4
 	if thorough {
-		nf = 400
+		nseeds = 40
 	}
-	for k := 1; k <= nf; k++ {
-		evals++
+	for s := 0; s < nseeds; s++ {
 		seed := r.U64()
-		key, desc := faultScenario(hx.NewRng(seed), 1+(k-1)%60)
-		report(key, desc, map[string]interface{}{"scenario": "write-fault", "fail_at": 1 + (k-1)%60, "seed": seed, "how": "harness/bin/c02 mode=search (seeded)"})
+		_, _, total := faultScenarioN(hx.NewRng(seed), -1)
+		for k := 1; k <= total; k++ {
+			evals++
+			nf++
+			key, desc := faultScenario(hx.NewRng(seed), k)
+			report(key, desc, map[string]interface{}{"scenario": "write-fault", "fail_at": k, "of": total, "seed": seed, "how": "harness/bin/c02 mode=search (seeded)"})
+		}
 	}
 	// concurrency (evidence, not proof): tries on one NodeDatabase from several goroutines
 	conc := map[string]interface{}{"workers": 8, "rounds": 0, "race_detector": a["race"] == "1"}
